@@ -4,9 +4,10 @@
 From ZC Require Import Base.Corr Model.RoundSM.
 Open Scope Z_scope.
 
-(* Restart in /repo: [false] = as written (rejected path returns without Unlock); set to [true]
-   when the Unlock is added *)
-Definition sm_code_fixed : bool := false.
+(* The behaviour of /repo: all [false] = as written.  Set a flag to [true] when the
+   corresponding repair is applied: fx_restart (Restart unlocks on the rejected path), fx_clamp
+   (SetTimeoutCount clamps to the cap), fx_saturate (no increment past MaxInt64). *)
+Definition sm_code_fix : sm_fix := {| fx_restart := false; fx_clamp := false; fx_saturate := false |}.
 
 Record sm_obs := { so_res : sm_res; so_phase : Z; so_fin : Z; so_tcount : Z; so_held : bool; so_shares : list Z }.
 
@@ -47,5 +48,5 @@ Fixpoint sm_all2 (l1 : list (sm_state * sm_res)) (l2 : list sm_obs) : bool :=
 
 Definition sm_check (c : sm_case) : bool :=
   match c with
-  | SmCase number ops obs => sm_all2 (sm_run sm_code_fixed (sm_init number) ops) obs
+  | SmCase number ops obs => sm_all2 (sm_run sm_code_fix (sm_init number) ops) obs
   end.
